@@ -270,6 +270,8 @@ def run(ctx: Ctx) -> None:
     loops.rule_pivot_choice(ctx, STABF)
     from ..rules import echelon as _echelon
     _echelon.rule_elim_direction(ctx)
+    from .c11 import rule_pivot_found
+    rule_pivot_found(ctx)
     from ..rules import bitform as _bitform
     _bitform.rule_helper_shape(ctx)
     _bitform.rule_g_table(ctx)
